@@ -620,6 +620,7 @@ def kernels(*names):
     tab['c_inside#evenodd'] = (INSIDE, 'c_inside#evenodd', gen_inside_evenodd)
     tab['c_crps#decomp'] = (CRPS, 'c_crps#decomp', gen_crps_decomp)
     tab['c_voronoi#nearest'] = (GRID, 'c_voronoi#nearest', gen_voronoi_nearest)
+    tab['c_var2h#average'] = (VAR2H, 'c_var2h#average', [g for r_, f_, g in ALL_KERNELS if f_ == 'c_var2h'][0])
     return [tab[n] for n in names]
 
 
